@@ -50,6 +50,18 @@ CHECKS = {
         technique="TLA+ model (TLC exhaustive) + model-generated scenarios replayed on the code + TLC trace monitor",
         design_ref="DESIGN.md section 5 C08",
     ),
+    "C05": dict(
+        level="model_checking",
+        text="Stats.tla models the fold of page bounds into chunk statistics (NaN-aware Compare, all-NaN and all-null "
+             "pages) and is checked over every small page layout; Order.tla defines the column orders on PLAIN bytes and "
+             "is self-checked. The same layouts are realised by the real writer for ten column kinds with seeded boundary "
+             "tables; page-header statistics, column index, chunk statistics and real page contents are recorded as bytes "
+             "and StatsMon.tla checks every bound, count, null-page flag and claimed boundary order in TLC.",
+        note="<=3 pages x <=2 values per page; decimal/int96/be128 orders and level histograms not covered; the "
+             "verbatim-copy path's statistics are covered by C11.",
+        technique="TLA+ model of the statistics fold (TLC exhaustive) + exhaustive replay of layouts on the code + TLC monitor with TLA+ column orders",
+        design_ref="DESIGN.md section 5 C05",
+    ),
     "C06": dict(
         level="model_checking",
         text="Search.tla transcribes Find/binarySearch/linearSearch and the writer's boundary-order rule; TLC checks the "
